@@ -121,9 +121,11 @@ CLAIMED["C02"] = dict(
          "x = |dt*generator|, of exp(m dt generator) y, and one step of the code's loop IS the order-L Taylor polynomial (the 'truncation "
          "bound' of the statement, Mathlib NormedSpace.exp); (v) without relaxation tr(F rho) is conserved EXACTLY, not only within the bound, "
          "for every F commuting with the Hamiltonian - the energy, its powers, the eigenstate populations (rdm_constant_of_motion, "
-         "rdm_energy_conserved). Tied to the code by 1e-9 comparison of every stored state of "
+         "rdm_energy_conserved); (vi) with Lorentzian or Gaussian pure dephasing (elementwise factor after every refined step, "
+         "E0*Q^s for the refined step number s) the trace is kept when the factor has a unit diagonal and Hermiticity when the "
+         "factor matrices are Hermitian (rdm_trace_conserved_deph/_gauss, rdm_herm_preserved_deph/_gauss). Tied to the code by 1e-9 comparison of every stored state of "
          "ReducedDensityMatrixPropagator (orders 2/4/6, Nref 1/2/5 incl. sticky reuse of propagators, Lindblad tensor/operator form, "
-         "Lorentzian pure dephasing) and StateVectorPropagator (complex Hermitian H) with the rational model, and by the oracle: trace, "
+         "Lorentzian and Gaussian pure dephasing, time axes not starting at zero) and StateVectorPropagator (complex Hermitian H) with the rational model, and by the oracle: trace, "
          "Hermiticity, positivity, distance to scipy expm of the GKSL generator within the bound, purity/energy, sv-vs-dm, RWA-vs-lab.",
     note="Lean kernel + standard axioms (Classical.choice via Mathlib analysis); positivity of the exact GKSL semigroup (Lindblad's theorem) "
          "and unitarity of exp(-iHt) are NOT proved: positivity / norm / purity / energy 'within the bound' are consequences checked "
@@ -340,9 +342,12 @@ CLAIMED["C18"] = dict(
 
 CLAIMED["C12"] = dict(
     text="Lean 4 proof that the orientational prefactor computed by the code IS the exact orientational average: for EVERY averaging "
-         "functional over 3x3 matrices that is linear, normalised, blind outside the orthogonal matrices and invariant under "
-         "multiplication from both sides by three explicit rational rotations (quarter turns about z and x, the rotation with cos 3/5, "
-         "sin 4/5) - properties the average over all molecular orientations has for every rotation - the averaged tensor "
+         "functional over 3x3 matrices that is linear, normalised, blind outside the orthogonal matrices and - on products of four "
+         "matrix elements - invariant under multiplication from both sides by three explicit rational rotations (quarter turns about z "
+         "and x, the rotation with cos 3/5, sin 4/5) - properties the average over all molecular orientations has for every rotation - "
+         "and such a functional EXISTS (designAvg_isRotationAverage: the explicit rational design 13/40 mean over the 24 cube rotations "
+         "+ 27/40 mean over O Q1 O, Q1 the half turn about (1,1,1); its sixteen determining moments are computed by the kernel) - the "
+         "averaged tensor "
          "<R_ia R_jb R_kc R_ld> equals sum_ab M4_ab I^a_ijkl I^b_abcd (T8_eq), where the classification of the invariant rank-4 "
          "tensors is PROVED (cubic_form over the 81 components, weyl4), the nine coefficients follow from R^T R = 1 (T8_contractions), "
          "and hence sign*(F4eM4.F4n)*rho0*evolfac with the M4 and the index pairings re-extracted from labsetup.py / diagramatics.py is "
@@ -354,9 +359,10 @@ CLAIMED["C12"] = dict(
          "pathway with the rational model and with an independent degree-4-exact quadrature over SO(3). Partial (measured on the "
          "implementation, not proved): rotation, scaling, total = R + NR and the additivity of uncoupled molecules for the SPECTRA "
          "(pathway generation and line shapes are not modelled).",
-    note="Lean kernel + standard axioms; existence of the Haar average of SO(3) with the listed properties is classical and not "
-         "constructed in Lean; pathway generation / line shapes observed only.",
-    technique="Lean 4 proof of the rank-4 isotropic average (invariant-tensor classification + contraction equations) + extracted M4/pairings + pathway-level correspondence and SO(3) quadrature oracle",
+    note="Lean kernel + standard axioms; no hypothesis about the Haar measure is left: an averaging functional with the listed "
+         "properties is constructed (a finite rational 4-design) and every such functional gives the same value; pathway generation / "
+         "line shapes observed only.",
+    technique="Lean 4 proof of the rank-4 isotropic average (invariant-tensor classification + contraction equations + explicit rational 4-design as witness) + extracted M4/pairings + pathway-level correspondence and SO(3) quadrature oracle",
     ref="DESIGN.md §5 C12")
 
 NOT_APPLICABLE = {}
